@@ -556,6 +556,12 @@ def detached(v):
   return v.clone(deep=True) if isinstance(v, pg.Symbolic) else v
 
 
+def sealed_dna_below(node):
+  """A sealed pg.DNA cannot be copied (its clone carries the flag and is then
+  rebound to drop metadata): whether a copy can be made is a don't-care."""
+  return any(isinstance(n, pg.DNA) and n.is_sealed for n, _ in TM.nodes_of(node))
+
+
 def construct_sealed(node):
   """A copy of `node` that is sealed by its constructor (`sealed=True`), not by
   a later seal() call."""
@@ -905,13 +911,17 @@ def run_case_in_thread(ctx, i):
                        or innermost(stacks['writable']) is False)
         if isinstance(pnode, pg.Ref) and name != 'unseal':
           name = 'seal'
+        if isinstance(pnode, pg.Functor) and name == 'ctor':
+          # the constructor of a functor takes every keyword as an argument of
+          # the function ('sealed' would become a bound argument): not generated
+          name = 'seal'
         if name == 'ctor':
           c['sealed_at_construction'] += 1
           ctx.label = 'construct-sealed'
           try:
             new_p = construct_sealed(pnode)
           except pg.WritePermissionError:
-            if not restrictive:
+            if not (restrictive or sealed_dna_below(pnode)):
               raise
             c['dont_care_object_construction_refused_in_scope'] += 1
             name = 'seal'
@@ -936,7 +946,7 @@ def run_case_in_thread(ctx, i):
           try:
             new_p = pnode.clone(deep=name == 'clone-deep')
           except pg.WritePermissionError:
-            if not restrictive:
+            if not (restrictive or sealed_dna_below(pnode)):
               raise
             c['dont_care_object_construction_refused_in_scope'] += 1
             ctx.label = None
